@@ -23,6 +23,11 @@ CORPUS = [
     # simple elements printed verbatim with inner layout
     "(a OR b)^2", "NOT (a AND b)", "-f:(a b)", "+(a b)^3", "f:(a b)", "f:(a AND (b OR c))", "f:(a)^2", "f:[1 TO 5]",
     "f:>=5", "f:-a", "NOT f:(a OR b) c", "a~2 b~ \"c d\"~3", "[-1 TO \"x y\"]",
+    # numerals the parser re-spells (GRespell events, nothing dropped): inside the guard of C18_respelled_partial
+    'f:(a^1.0 OR  b~.5) AND "x y"~02 c^007', "a^1.0", "b~.5", '"x y"~02', "a~1.0^2.50", "a~00.10 b^10.0 c^0.0",
+    "(a^1.0)^02.0 OR f:b~1.", "NOT a~.50 AND -b^007", '"x y"~010^.5 d~1.50', "a\n^1.0 b\n~0.50", "f:(a^01)^1.00 g:[a TO b]^2.0",
+    # ... together with a dropped blank (F1's class: outside the guard)
+    "f :a^1.0", "xT12 :30~1.0",
     # operations without groups, mixed operators (F4 shapes too)
     "a AND b -c", "a b AND c", "a OR b AND c OR d", "a AND b OR c AND d", "a b c", "a AND b AND c", "a OR b c OR d",
     "a AND b +c", "a OR b TO", "a AND NOT b", "a -b +c",
@@ -433,34 +438,49 @@ def correspond(model_ok, res):
         # the hypothesis side of the statement in the model: the model parser returns the same trees
         for i in PG.run_parse_cases("C18p", parsed_strings, parsed_results):
             res.disagreements.append({"input": parsed_strings[i], "what": "model parser differs on the input query"})
-        # theorem C18_partial_lexemes against the implementation: inside its two guards (no ghost event while parsing,
-        # no newline inside a token - both evaluated on the MODEL) the implementation's round trip must never have
-        # failed, whatever the known-finding classifier says; the second half of the list probes the guard, to
-        # measure how many inputs the theorem covers
-        gdefs = ("Definition in_guard (s : str) : bool :=\n"
-                 "  match parse s with\n"
-                 "  | Some (Ok t) => (match parse_events s with [] => true | _ => false end) && no_newline_in_lexemes s\n"
-                 "  | _ => false end.\n"
-                 "Definition chk (c : str * bool * bool) : bool :=\n"
-                 "  let '(s, failed, probe) := c in\n"
-                 "  if probe then in_guard s else negb (in_guard s && failed).")
-        gcases = ["(%s, %s, false)" % (lib.g_str(x), lib.g_bool(bool(rt_failed.get(x)))) for x in parsed_strings]
-        gcases += ["(%s, false, true)" % lib.g_str(x) for x in parsed_strings]
-        gcanary = "([97]%N, true, false)"          # `a` is inside the guards: a failed round trip must be reported
+        # theorem C18_respelled_partial (C18r.v) against the implementation: inside its two guards (no text dropped
+        # while parsing, no newline inside a token - both evaluated on the MODEL) the implementation's round trip
+        # must never have failed for any setting tried, whatever the known-finding classifier says; modes 1 and 2
+        # probe the new and the old (C18p: no ghost event at all) guard, to measure what each theorem covers
+        gdefs = ("Definition lexemes_ok (s : str) : bool :=\n"
+                 "  match parse s with Some (Ok t) => no_newline_in_lexemes s | _ => false end.\n"
+                 "Definition in_guard (s : str) : bool :=\n"
+                 "  lexemes_ok s && match dropped_texts s with [] => true | _ => false end.\n"
+                 "Definition in_old_guard (s : str) : bool :=\n"
+                 "  lexemes_ok s && match parse_events s with [] => true | _ => false end.\n"
+                 "Definition chk (c : str * bool * nat) : bool :=\n"
+                 "  let '(s, failed, mode) := c in\n"
+                 "  match mode with\n"
+                 "  | O => negb (in_guard s && failed)\n"
+                 "  | S O => in_guard s\n"
+                 "  | _ => in_old_guard s || negb (in_guard s)      (* false = covered by C18r only *)\n"
+                 "  end.")
+        gcases = ["(%s, %s, O)" % (lib.g_str(x), lib.g_bool(bool(rt_failed.get(x)))) for x in parsed_strings]
+        gcases += ["(%s, false, S O)" % lib.g_str(x) for x in parsed_strings]
+        gcases += ["(%s, false, S (S O))" % lib.g_str(x) for x in parsed_strings]
+        gcanary = "([97]%N, true, O)"          # `a` is inside the guards: a failed round trip must be reported
+        gcanary2 = "([97;94;49;46;48]%N, true, O)"     # `a^1.0` is inside the NEW guard (outside the old one)
+        gcanary3 = "([97;94;49;46;48]%N, false, S (S O))"    # ... and must be counted as covered by C18r only
         gbad = lib.eval_cases("C18g", "Base Decimal Tree TreeEq GenParser Lexer Actions LR Parser Eq Pretty PrettyProofs BridgeProofs",
-                              gdefs, gcases + [gcanary], "chk", shard=120)
-        assert len(gcases) in gbad, "guard canary not detected"
+                              gdefs, gcases + [gcanary, gcanary2, gcanary3], "chk", shard=120)
+        assert all(len(gcases) + j in gbad for j in range(3)), "guard canary not detected"
         n = len(parsed_strings)
         outside = 0
+        new_only = 0
         for i in gbad:
             if i < n:
                 res.disagreements.append({"input": parsed_strings[i],
-                                          "what": "inside the guards of theorem C18_partial_lexemes (model) but the "
-                                                  "implementation's pretty output did not parse back to an equal tree"})
+                                          "what": "inside the guards of theorem C18_respelled_partial (model: nothing "
+                                                  "dropped, no newline inside a token) but the implementation's pretty "
+                                                  "output did not parse back to an equal tree"})
             elif i < 2 * n:
                 outside += 1
-        dist["inputs_inside_guards_of_C18_partial"] = n - outside
-        dist["inputs_outside_guards_of_C18_partial"] = outside
+            elif i < 3 * n:
+                new_only += 1
+        dist["inputs_inside_guards_of_C18_respelled_partial"] = n - outside
+        dist["inputs_outside_guards_of_C18_respelled_partial"] = outside
+        dist["inputs_inside_guards_of_C18_partial_lexemes"] = n - outside - new_only
+        dist["inputs_covered_by_C18r_only_(re-spelled_numerals)"] = new_only
     except Exception as e:
         res.model_error = "%s: %s" % (type(e).__name__, e)
     return res
@@ -476,7 +496,13 @@ SPEC = {
     # the end-to-end theorem: bridge parser -> token groups (proofs/BridgeProofs.v) + L-respace
     "more": [{"module": "C18p", "target": "props/C18p.vo",
               "theorems": ["C18_partial", "C18_partial_lexemes", "C18_bridge", "C18_bridge_any_tables", "L_respace_glued_trail_thm",
-                           "C18_exact_groups_refuted"]}],
+                           "C18_exact_groups_refuted"]},
+             # the same under the weaker guard "no text dropped": numerals re-spelled by the parser are covered
+             {"module": "C18r", "target": "props/C18r.vo",
+              "theorems": ["C18_respelled_partial", "C18r_guard_weaker", "C18r_subsumes_C18p", "C18r_drop_guard_needed",
+                           "C18r_newline_guard_needed", "C18_bridge_respelled", "C18_bridge_respelled_any_tables",
+                           "C18r_action_cases", "L_respace_respelled_main_thm", "L_respace_respelled_thm",
+                           "parse_respelled_same_tree_thm", "C18r_printed_numeral", "C18r_ex_round_trip"]}],
     "correspond": correspond,
     "statement": "for every parsed query t and every setting, parse(pretty cfg t) is a tree equal to t: REFUTED by "
                  "'\"a\\nb\" AND c' (F11), and even without newlines by '-xT12 :30' (F1 + time syntax). Proved: pretty never raises on a parsed query (any LR tables) and is a "
@@ -484,7 +510,12 @@ SPEC = {
                  "non-empty blank/newline separators, each newline inside a chunk being replaced by such a separator; "
                  "and the statement's conclusion holds whenever the pretty text lexes to the query's tokens. "
                  "C18_partial_lexemes (C18p.v): the property's own statement, for every setting, for every parsed query "
-                 "without ghost event (C01's guard, excludes F1) and without a newline inside a token (excludes F11)",
+                 "without ghost event (C01's guard, excludes F1) and without a newline inside a token (excludes F11). "
+                 "C18_respelled_partial (C18r.v): the same under the WEAKER first guard 'no text dropped while parsing' "
+                 "(dropped_texts s = [], C01r's guard): queries whose numerals the parser re-spells (a^1.0 -> a^1, "
+                 "b~.5 -> b~0.5, \"x y\"~02 -> \"x y\"~2) are covered; the only parsed inputs excluded are F1's class "
+                 "(a blank before a field's colon) and F11's class (a newline inside a phrase or regex), and neither "
+                 "guard can be removed (C18r_drop_guard_needed, C18r_newline_guard_needed)",
     "level_text": "Coq proof (PARTIAL). Proved: (1) the full statement is refuted by a computed witness (F11), and so is "
                   "its restriction to trees without a newline in any chunk (second witness '-xT12 :30': str() of a "
                   "simple element drops the blank before a colon, F1, and 'T12:30' fuses into one word); "
@@ -506,7 +537,18 @@ SPEC = {
                   "the LR driver: the chunk sequence of the parsed tree is, chunk by chunk, blanks ++ text of a group "
                   "of consecutive tokens of the query ++ blanks (a simple element keeps the layout of its inner nodes: "
                   "C18_exact_groups_refuted shows the blanks cannot be dropped), and on the lexer theorem L-respace "
-                  "extended with a blank trailer. Outside the guards the conclusion is validated on every run by "
+                  "extended with a blank trailer. (6) C18r.v: C18_respelled_partial = the same statement with the first "
+                  "guard weakened to 'no text dropped while parsing' (C01r's guard), so that inputs whose numerals the "
+                  "parser re-spells are inside; it subsumes (5) (C18r_subsumes_C18p) and both guards are again shown "
+                  "necessary. Three new layers: the bridge over the RE-SPELLED token list (C18_bridge_respelled, any "
+                  "tables: per action, harmless events are trivial unless the action is an explicit proximity / boost "
+                  "/ fuzzy, whose token then carries the printed numeral), L-respace when APPROX/BOOST tokens change "
+                  "their digits (L_respace_respelled: no lexer rule looks past a '~' or '^'), and a one-directional "
+                  "simulation of the LR driver on token lists that differ by numerals with the same "
+                  "Decimal(..).normalize() and int(..) (parse_respelled_same_tree, any tables), fed by the decimal "
+                  "lemma that the printed numeral has both (C18r_printed_numeral). The harness checks on every run "
+                  "that every generated parsed input inside the two guards (evaluated on the model) round-trips on "
+                  "the implementation for every setting tried. Outside the guards the conclusion is validated on every run by "
                   "the correspondence, which evaluates the executable statement parse(pretty cfg t) == t both on the real "
                   "parser/prettifier and on the Coq models (Parser.parse (pretty ...) by vm_compute) and compares "
                   "the verdicts and the pretty strings; non-modification of the input is checked by snapshots.",
